@@ -3,6 +3,7 @@
 -/
 import SqlDt.Lemmas.Div
 import SqlDt.Model.Serde
+import SqlDt.Lemmas.RoundTrip
 namespace SqlDt.C15
 open SqlDt Gen
 
@@ -30,5 +31,35 @@ theorem deBin_serBin (ty : Ty) (v : Int) (hv : ty.Valid v) : Serde.deBin ty (Ser
 /-- Out-of-range raw counts are rejected (the cases the unrepaired crate accepted). -/
 example : Serde.deBin .D 2147483647 = .error .Serde ∧ Serde.deBin .T 9223372036854775807 = .error .Serde ∧
     Serde.deBin .OD 1 = .error .Serde ∧ Serde.deBin .D 2932896 = .ok 2932896 := by decide
+
+/-! ### human-readable form (the six fixed pictures of `serialize.rs`) -/
+
+/-- Human-readable serialisation of EVERY valid value of EVERY type succeeds and fits the 32-byte stack buffer
+    (`StackStr<32>`): the `Err(ser::Error)` / overflow branch of `serialize` is unreachable for valid values. -/
+theorem serStr_ok (ty : Ty) (v : Int) (hv : ty.Valid v) : ∃ text, Serde.serStr ty v = .ok text ∧ text.length ≤ 32 :=
+  Lemmas.serStr_ok ty v hv
+
+/-- Human-readable round trip: for EVERY valid value of EVERY type, and under any clock, deserialising the
+    serialised text gives the value back. -/
+theorem deStr_serStr (ty : Ty) (v : Int) (hv : ty.Valid v) (now : Clock) (text : Bytes)
+    (h : Serde.serStr ty v = .ok text) : Serde.deStr ty text now = .ok v :=
+  Lemmas.deStr_serStr ty v hv now text h
+
+/-- The two together, without the intermediate text as a hypothesis. -/
+theorem human_roundtrip (ty : Ty) (v : Int) (hv : ty.Valid v) (now : Clock) :
+    (Serde.serStr ty v).bind (fun t => Serde.deStr ty t now) = .ok v := by
+  obtain ⟨t, a, _⟩ := serStr_ok ty v hv
+  rw [a]; exact deStr_serStr ty v hv now t a
+
+/-- Human-readable deserialisation of ANY text, under any clock, either fails or yields a value inside the type's
+    documented range (whole seconds for the Oracle-style date). -/
+theorem deStr_valid (ty : Ty) (text : Bytes) (now : Clock) (v : Int) (h : Serde.deStr ty text now = .ok v) : ty.Valid v :=
+  Lemmas.deStr_valid ty text now v h
+
+/-- Non-vacuity: the extreme values of each type go through the human-readable form. -/
+example : Serde.serStr .TS 253402300799999999 = .ok (bytesOf "9999-12-31 23:59:59.999999") ∧
+    Serde.deStr .TS (bytesOf "9999-12-31 23:59:59.999999") default = .ok 253402300799999999 ∧
+    Serde.deStr .D (bytesOf "0000-01-01") default = .error .Serde ∧
+    Serde.deStr .OD (bytesOf "9999-12-31 23:59:60") default = .error .Serde := by decide +kernel
 
 end SqlDt.C15
